@@ -229,8 +229,14 @@ def parseProgram (ls : List (List String)) : Option Program := ls.mapM (fun l =>
 /-- The program extracted from the working tree on this run. -/
 def extractedProgram : Program := (parseProgram Gen.Cache.singleLines).getD []
 
-/-- kinds of the LRU wrapper's shared-state lines, in source order (cf. `LPc`) -/
-def lruShape : List String := ["clk", "iter", "del", "in", "move", "get", "call", "store", "len", "pop"]
+/-- kinds of the LRU wrapper's shared-state lines, in source order (cf. `LPc`); `lock1` / `lock2` are the two
+`with lock:` lines (each is executed twice: to acquire, and again when the block is left, to release) -/
+def lruShape : List String :=
+  ["clk", "lock1", "iter", "del", "in", "move", "get", "call", "lock2", "store", "len", "pop"]
+
+/-- which shared-state lines each `with lock:` block of the LRU wrapper guards -/
+def lruGuarded : List (String × List String) :=
+  [("lock1", ["iter", "del", "in", "move", "get"]), ("lock2", ["store", "len", "pop"])]
 
 structure Slots (A B : Type) where
   a : Option A      -- last_args   (None initially: never equal to a tuple)
@@ -377,7 +383,16 @@ end Single2
 `od_state` counter, which every structural change (new key, delete, move, popitem) bumps
 and which an iterator compares on every `next()` ("OrderedDict mutated during iteration").
 The steps are the wrapper's source lines that touch shared state; in CPython 3.12 the
-inlined comprehension at tools.py:487-489 yields one line event per `next()`. -/
+inlined comprehension yields one line event per `next()`.
+
+The wrapper (after `fix: lru_cache_with_expiry does its bookkeeping under a lock`) guards its
+bookkeeping with `with lock:` blocks; `lock` is a `threading.RLock` created next to the cache.
+The `with` line is a step of its own: executed once to acquire (a thread that finds the lock taken
+does not proceed: the step changes nothing) and once more when the block is left - normally, by
+`return`, or by an exception - to release (CPython attributes the call of `__exit__` to the `with`
+line).  The dictionary operations keep ALL their failure branches (a missing key raises `KeyError`,
+a changed dictionary makes the iterator raise): that they are never taken is a theorem
+(`C19.lru_every_call_returns_its_own_result`), not an assumption. -/
 
 structure OD (K : Type) where
   items : List (LEntry K)
@@ -385,19 +400,30 @@ structure OD (K : Type) where
   deriving Repr
 
 inductive LPc (K : Type) where
-  | clk                                              -- 483 (+484 key, +488 `cache.items()`: local)
-  | iterFirst                                        -- 487 GET_ITER and the first next()
-  | iterNext (cur : Option K) (ver : Nat) (acc : List K)  -- 487 next(); 488 (the filter) is local
-  | del (todo : List K)                              -- 491 `del cache[k]`; 490 is local
-  | inCheck                                          -- 494 `key in cache`
-  | move                                             -- 496 `cache.move_to_end(key)`
-  | get                                              -- 497 `return cache[key][1]`
-  | call                                             -- 500
-  | store                                            -- 501 `cache[key] = (current_time, result)`
-  | len                                              -- 504 `len(cache) > max_size`; 507 return is local
-  | pop                                              -- 505 `cache.popitem(last=False)`
-  | cleanup (cls : String)                           -- 487 again: the inlined comprehension's handler restores locals and re-raises
+  | clk                                              -- `current_time = time.time()` (+ key: local)
+  | acq1                                             -- `with lock:` entered
+  | iterFirst                                        -- GET_ITER and the first next() (`cache.items()` before it: local)
+  | iterNext (cur : Option K) (ver : Nat) (acc : List K)  -- next(); the filter lines are local
+  | del (todo : List K)                              -- `del cache[k]`; the `for` line is local
+  | inCheck                                          -- `key in cache`
+  | move                                             -- `cache.move_to_end(key)`
+  | get                                              -- `return cache[key][1]`: the value is computed ...
+  | rel1Hit (v : Nat)                                -- ... the `with` line again: release, then the return completes
+  | rel1Miss                                         -- the `with` line again: release, fall through to the call
+  | call                                             -- `result = func(*args, **kwargs)` (outside the lock)
+  | acq2                                             -- second `with lock:` entered
+  | store                                            -- `cache[key] = (current_time, result)`
+  | len                                              -- `len(cache) > max_size`
+  | pop                                              -- `cache.popitem(last=False)`
+  | rel2                                             -- the second `with` line again: release; `return result` is local
+  | cleanup (cls : String)                           -- the inlined comprehension's handler restores locals and re-raises
+  | relErr (cls : String)                            -- the `with` line's exception handler: release, re-raise
   deriving Repr
+
+/-- the program points inside a `with lock:` block -/
+def LPc.inLock {K : Type} : LPc K → Bool
+  | .clk | .acq1 | .call | .acq2 => false
+  | _ => true
 
 /-- outcome of a call: a value (invocation index) or an exception class raised by the wrapper -/
 inductive Outcome where
@@ -415,8 +441,12 @@ structure LThr (K : Type) where
 
 def LThr.start {K : Type} (k : K) : LThr K := { key := k, pc := .clk, now := 0, res := none, out := none }
 
+/-- the thread is inside a `with lock:` block (it holds the lock) -/
+def LThr.crit {K : Type} (t : LThr K) : Bool := t.out.isNone && t.pc.inLock
+
 structure LWorld (K : Type) where
   od : OD K
+  lock : Bool       -- the RLock is taken
   clock : Int
   log : List (K × Int)
   deriving Repr
@@ -444,7 +474,8 @@ def iterStep (valid : Option Int) (w : LWorld K) (t : LThr K) (k : K) (ver : Nat
 def lstepThr (maxSize : Nat) (valid : Option Int) (cost : K → Int) (w : LWorld K) (t : LThr K) :
     LWorld K × LThr K :=
   match t.pc with
-  | .clk => (w, { t with now := w.clock, pc := .iterFirst })
+  | .clk => (w, { t with now := w.clock, pc := .acq1 })
+  | .acq1 => if w.lock then (w, t) else ({ w with lock := true }, { t with pc := .iterFirst })
   | .iterFirst =>
     match w.od.items with
     | [] => (w, { t with pc := .inCheck })
@@ -456,12 +487,12 @@ def lstepThr (maxSize : Nat) (valid : Option Int) (cost : K → Int) (w : LWorld
     if w.od.items.any (fun e => e.key = k) then
       ({ w with od := { items := delKey w.od.items k, ver := w.od.ver + 1 } },
        { t with pc := if rest.isEmpty then .inCheck else .del rest })
-    else (w, { t with out := some (.err "KeyError") })
+    else (w, { t with pc := .relErr "KeyError" })
   | .inCheck =>
-    if w.od.items.any (fun e => e.key = t.key) then (w, { t with pc := .move }) else (w, { t with pc := .call })
+    if w.od.items.any (fun e => e.key = t.key) then (w, { t with pc := .move }) else (w, { t with pc := .rel1Miss })
   | .move =>
     match w.od.items.find? (fun e => e.key = t.key) with
-    | none => (w, { t with out := some (.err "KeyError") })
+    | none => (w, { t with pc := .relErr "KeyError" })
     | some e =>
       if (w.od.items.getLast?.map (·.key)) = some t.key then (w, { t with pc := .get })
       else
@@ -469,14 +500,17 @@ def lstepThr (maxSize : Nat) (valid : Option Int) (cost : K → Int) (w : LWorld
          { t with pc := .get })
   | .get =>
     match w.od.items.find? (fun e => e.key = t.key) with
-    | none => (w, { t with out := some (.err "KeyError") })
-    | some e => (w, { t with out := some (.ok e.res) })
+    | none => (w, { t with pc := .relErr "KeyError" })
+    | some e => (w, { t with pc := .rel1Hit e.res })
+  | .rel1Hit v => ({ w with lock := false }, { t with out := some (.ok v) })
+  | .rel1Miss => ({ w with lock := false }, { t with pc := .call })
   | .call =>
     ({ w with log := w.log ++ [(t.key, w.clock)], clock := w.clock + cost t.key },
-     { t with res := some w.log.length, pc := .store })
+     { t with res := some w.log.length, pc := .acq2 })
+  | .acq2 => if w.lock then (w, t) else ({ w with lock := true }, { t with pc := .store })
   | .store =>
     match t.res with
-    | none => (w, { t with out := some (.err "Unreachable") })
+    | none => (w, { t with pc := .relErr "Unreachable" })
     | some id =>
       let e : LEntry K := { key := t.key, time := t.now, res := id }
       if w.od.items.any (fun e' => e'.key = t.key) then
@@ -485,19 +519,17 @@ def lstepThr (maxSize : Nat) (valid : Option Int) (cost : K → Int) (w : LWorld
       else
         ({ w with od := { items := w.od.items ++ [e], ver := w.od.ver + 1 } }, { t with pc := .len })
   | .len =>
-    match t.res with
-    | none => (w, { t with out := some (.err "Unreachable") })
-    | some id =>
-      if w.od.items.length > maxSize then (w, { t with pc := .pop })
-      else (w, { t with out := some (.ok id) })
+    if w.od.items.length > maxSize then (w, { t with pc := .pop }) else (w, { t with pc := .rel2 })
   | .pop =>
+    match w.od.items with
+    | [] => (w, { t with pc := .relErr "KeyError" })
+    | _ :: rest => ({ w with od := { items := rest, ver := w.od.ver + 1 } }, { t with pc := .rel2 })
+  | .rel2 =>
     match t.res with
-    | none => (w, { t with out := some (.err "Unreachable") })
-    | some id =>
-      match w.od.items with
-      | [] => (w, { t with out := some (.err "KeyError") })
-      | _ :: rest => ({ w with od := { items := rest, ver := w.od.ver + 1 } }, { t with out := some (.ok id) })
-  | .cleanup cls => (w, { t with out := some (.err cls) })
+    | none => ({ w with lock := false }, { t with out := some (.err "Unreachable") })
+    | some id => ({ w with lock := false }, { t with out := some (.ok id) })
+  | .cleanup cls => (w, { t with pc := .relErr cls })
+  | .relErr cls => ({ w with lock := false }, { t with out := some (.err cls) })
 
 structure LConc (K : Type) where
   w : LWorld K
@@ -505,7 +537,16 @@ structure LConc (K : Type) where
   deriving Repr
 
 def LConc.init (t0 : Int) (keys : List K) : LConc K :=
-  { w := { od := { items := [], ver := 0 }, clock := t0, log := [] }, thr := keys.map LThr.start }
+  { w := { od := { items := [], ver := 0 }, lock := false, clock := t0, log := [] }, thr := keys.map LThr.start }
+
+/-- the same wrapper WITHOUT the lock (the design before the repair, finding C19-K01): the `with`
+lines do nothing -/
+def lstepNoLock (maxSize : Nat) (valid : Option Int) (cost : K → Int) (w : LWorld K) (t : LThr K) :
+    LWorld K × LThr K :=
+  match t.pc with
+  | .acq1 => (w, { t with pc := .iterFirst })
+  | .acq2 => (w, { t with pc := .store })
+  | _ => lstepThr maxSize valid cost w t
 
 def LConc.finishThr (maxSize : Nat) (valid : Option Int) (cost : K → Int) :
     Nat → LWorld K → LThr K → LWorld K × LThr K
@@ -533,7 +574,7 @@ def LConc.step (maxSize : Nat) (valid : Option Int) (cost : K → Int) (c : LCon
     | some t =>
       if t.out.isSome then none
       else
-        let r := LConc.finishThr maxSize valid cost (2 * c.w.od.items.length + 12) c.w t
+        let r := LConc.finishThr maxSize valid cost (2 * c.w.od.items.length + 18) c.w t
         some { w := r.1, thr := c.thr.set i r.2 }
 
 def LConc.runSched (maxSize : Nat) (valid : Option Int) (cost : K → Int) :
@@ -543,5 +584,18 @@ def LConc.runSched (maxSize : Nat) (valid : Option Int) (cost : K → Int) :
     match LConc.step maxSize valid cost c s with
     | none => none
     | some c' => LConc.runSched maxSize valid cost c' ss
+
+/-- a schedule of the lock-free design (`run` steps only; used by the counterexample of C19-K01) -/
+def LConc.runNoLock (maxSize : Nat) (valid : Option Int) (cost : K → Int) :
+    LConc K → List Nat → Option (LConc K)
+  | c, [] => some c
+  | c, i :: is =>
+    match c.thr[i]? with
+    | none => none
+    | some t =>
+      if t.out.isSome then none
+      else
+        let r := lstepNoLock maxSize valid cost c.w t
+        LConc.runNoLock maxSize valid cost { w := r.1, thr := c.thr.set i r.2 } is
 
 end Cache
